@@ -327,8 +327,14 @@ JUDGE_OPS = {"list_complement": "AdjacencyList::complement", "list_complete": "A
              "map_random_tournament": "AdjacencyMap::random_tournament", "map_erdos_renyi": "AdjacencyMap::erdos_renyi"}
 
 
+JUDGE_CASES_LARGE = 8 * 3 * 2
+
+
 def judge_name(i):
-    return "judge/%s/n%d/t%d" % (JUDGE_KINDS[i % 8], 2 + (i // 32) % 7, 1 + (i // 8) % 4)
+    if i < JUDGE_CASES:
+        return "judge/%s/n%d/t%d" % (JUDGE_KINDS[i % 8], 2 + (i // 32) % 7, 1 + (i // 8) % 4)
+    j = i - JUDGE_CASES
+    return "judge/%s/n%d/t%d" % (JUDGE_KINDS[i % 8], [17, 20][(j // 24) % 2], 2 + (j // 8) % 3)
 
 
 def judge_lane(pid, tier, seed, workdir, njobs):
@@ -337,7 +343,9 @@ def judge_lane(pid, tier, seed, workdir, njobs):
     ws = D.workspace()
     build(ws)
     kinds = range(8) if pid == "C17" else (6, 7)
-    cases = [i for i in range(JUDGE_CASES) if i % 8 in kinds]
+    # thorough adds the large band (orders 17 and 20 at 2..4 CPUs: several rows per worker; first 4 seeds only)
+    ncases = JUDGE_CASES + (JUDGE_CASES_LARGE if tier == "thorough" else 0)
+    cases = [i for i in range(ncases) if i % 8 in kinds]
     names = {i: judge_name(i) for i in cases}
     nseeds = 1 if tier == "quick" else 16
     rates = ["0.1", "0.3", "0.05", "0.5"]
@@ -348,8 +356,9 @@ def judge_lane(pid, tier, seed, workdir, njobs):
     for k in range(nseeds):
         ms = (seed + 101 * k) % (1 << 31)
         flags = "-Zmiri-preemption-rate=%s" % rates[k % len(rates)]
+        these = cases if k < 4 else [i for i in cases if i < JUDGE_CASES]
         for part in range(per_seed):
-            jobs.append({"indices": cases[part::per_seed], "seed": ms, "flags": flags,
+            jobs.append({"indices": these[part::per_seed], "seed": ms, "flags": flags,
                          "workdir": os.path.join(workdir, "judge%02d_%02d" % (k, part))})
     for j, done, fails, mism in run_pool(ws, names, jobs, njobs, "judge"):
         ms, flags = j["seed"], j["flags"]
@@ -372,7 +381,8 @@ def judge_lane(pid, tier, seed, workdir, njobs):
                                "detail": "%s at %s" % (f["message"], f["location"]), "miri_seed": ms, "flags": flags})
     stats = {"judged_case_executions": ran, "cases": len(cases), "miri_seeds": nseeds, "preemption_rates": rates[:nseeds],
              "wall_s": round(time.time() - t0, 1),
-             "what": "threaded operations on inputs of order 2..8 at 1..4 simulated CPUs, real std threads scheduled by "
+             "what": "threaded operations on inputs of order 2..8 at 1..4 simulated CPUs (thorough: also orders 17 and 20 "
+                     "at 2..4 CPUs), real std threads scheduled by "
                      "Miri with preemption and weak-memory emulation, results judged against the model"}
     return stats, violations
 
